@@ -21,6 +21,7 @@ type HS struct {
 	PrepErr  error
 	Info     *tls.ClientHelloInfo // what the server saw (GetConfigForClient)
 	done     chan struct{}
+	shsDone  chan struct{} // closed when the server's Handshake call has returned (SErr is then set)
 	EchoOK   bool
 	EchoErr  error
 	finished bool
@@ -50,7 +51,7 @@ type Opts struct {
 // Run performs one handshake (and optionally an echo round trip).
 func Run(ccfg *tls.Config, id tls.ClientHelloID, scfg *tls.Config, o Opts) (h *HS) {
 	ce, se := Pipe()
-	h = &HS{CE: ce, SE: se, done: make(chan struct{})}
+	h = &HS{CE: ce, SE: se, done: make(chan struct{}), shsDone: make(chan struct{})}
 	if o.WrapClient != nil {
 		o.WrapClient(ce)
 	}
@@ -87,7 +88,10 @@ func Run(ccfg *tls.Config, id tls.ClientHelloID, scfg *tls.Config, o Opts) (h *H
 				se.Close()
 			}
 		}()
-		h.SErr = h.S.Handshake()
+		func() {
+			defer close(h.shsDone) // also when Handshake panics
+			h.SErr = h.S.Handshake()
+		}()
 		if h.SErr != nil {
 			se.Close()
 			return
@@ -165,6 +169,11 @@ func Run(ccfg *tls.Config, id tls.ClientHelloID, scfg *tls.Config, o Opts) (h *H
 	}()
 	if !o.KeepOpen {
 		h.Finish()
+	} else {
+		// the caller goes on using the connection and reads SErr: wait until the server's Handshake
+		// has returned (it has, or does at once, when the client's did; after a client error the
+		// client end was closed above, which ends it too)
+		<-h.shsDone
 	}
 	return h
 }
